@@ -5,6 +5,11 @@ tie:   generated histories run on the real `Memory` / `Cache` facade under the v
        model driver; compared line by line:  impl == model (correspondence)  and  impl == spec (the property).
        The real purge task runs next to the harness task; what it does to the store is observed on the store
        (not on how `_remove_expired` is written) and spliced into the history as `purge` lines - see memhist.py.
+       Through the facade two thirds of the histories spell every TTL the way an application may (int, float,
+       timedelta - with a non-zero `days` field from one day on -, duration strings '90s' / '1d1m30s' / ' 1D ' / bare
+       digits), one third of them with TTLs of hours and days and time advances aimed at those deadlines; the model
+       keeps working in ticks (the harness converts the intended duration itself, never through cashews.ttl); the
+       Lean side of this glue is Props/C01 `facade_spellings_refine` (over C02's parser lemmas).
 """
 from __future__ import annotations
 
@@ -31,6 +36,8 @@ TRUSTED = [
     "commands landing at the very instant of a purge tick, before and after the purge task's step (interesting_states_cases: "
     "command_at_the_instant_of_a_sweep_after_it, sweep_at_the_instant_of_a_command_after_it; sweep_split_by_commands stays absent)",
     "serializer configurations are run but not modelled: C09 covers decode(encode v) = v",
+    "TTL spellings: harness/memhist.py `spell` builds the Python object (int / float / timedelta / str) for a number of ticks and hands "
+    "the plain tick count to the model - the two sides never share a conversion; Python's own timedelta normalisation and str/int are trusted",
     "capacity eviction excluded (size=1000 >> keys); see C11",
 ]
 
@@ -85,15 +92,17 @@ def report(chk: Check, cfg, ops, origin):
         "first_diff_vs_model": dm,
         "first_diff_vs_spec": ds,
         "origin": origin,
+        "ttl_spellings": [d for d in map(memhist.describe, small) if d],
         "replay_cmd": "./check C01 --replay <this file>",
     }
+    how = f"; TTLs as handed to the facade: {', '.join(replay['ttl_spellings'])}" if replay["ttl_spellings"] else ""
     if ds is not None:
         chk.violation(
-            f"in-memory backend disagrees with the ideal TTL map at step {ds}: `{eff[ds][0]}` -> impl {eff[ds][1]}, {answers[ds + 1]} (config {cfg})",
+            f"in-memory backend disagrees with the ideal TTL map at step {ds}: `{eff[ds][0]}` -> impl {eff[ds][1]}, {answers[ds + 1]} (config {cfg}){how}",
             replay, signature=signature(eff, ds))
     else:
         chk.violation(
-            f"correspondence broken: implementation differs from model Mem at step {dm} `{eff[dm][0]}` but agrees with the ideal map",
+            f"correspondence broken: implementation differs from model Mem at step {dm} `{eff[dm][0]}` but agrees with the ideal map{how}",
             dict(replay, broken="correspondence Mem model <-> cashews/backends/memory.py"), signature=None, no_input=True)
 
 
@@ -112,6 +121,7 @@ def run(chk: Check) -> int:
     distinct = set()
     hist = {}
     interesting = {}
+    spellings = {}
     samples = []
     cases = [("corpus:" + name, cfg, ops) for name, cfg, ops in corpus_cases()]
     ncorpus = len(cases)
@@ -119,9 +129,17 @@ def run(chk: Check) -> int:
         cfg = CFGS[i % len(CFGS)]
         maxlen = 40 if i % 3 else 12
         # purge task on: every other history is phase-locked to the purge ticks (see memhist.PHASE_ADVS)
-        locked = bool(memhist.CONFIGS[cfg]["purge"]) and (i // len(CFGS)) % 2 == 1
+        rnd = i // len(CFGS)
+        locked = bool(memhist.CONFIGS[cfg]["purge"]) and rnd % 2 == 1
+        # facade: rounds 1, 2 mod 3 spell every TTL (memhist.spell); round 2 mod 3 adds TTLs of hours and days and time
+        # advances aimed at their deadlines (purge task on: never more than ten minutes at once - every purge tick is
+        # a turn of the real loop; the long deadlines are then queried and read, not crossed)
+        spelled = memhist.CONFIGS[cfg]["facade"] and rnd % 3 != 0
+        big = spelled and rnd % 3 == 2 and not locked
         cases.append((f"gen:{i}", cfg, memhist.gen_history(
-            chk.rng, NKEYS, maxlen, advs=memhist.PHASE_ADVS if locked else None, ttls=memhist.PHASE_TTLS if locked else None)))
+            chk.rng, NKEYS, maxlen, advs=memhist.PHASE_ADVS if locked else None, ttls=memhist.PHASE_TTLS if locked else None,
+            forms=memhist.SPELL_FORMS if spelled else None, bigttls=memhist.BIG_TTLS if big else None,
+            maxadv=4800 if memhist.CONFIGS[cfg]["purge"] else None)))
     # run the implementation on every case, then the model driver ONCE on all of them (one `case` line resets it)
     runs = []
     for origin, cfg, ops in cases:
@@ -141,10 +159,14 @@ def run(chk: Check) -> int:
             name = w[0] + ("_" + w[4] if w[0] == "set" else "")
             hist[name] = hist.get(name, 0) + 1
         for k, v in stats.items():
-            interesting[k] = interesting.get(k, 0) + 1
+            if k.startswith("spelling:"):
+                spellings[k[9:]] = spellings.get(k[9:], 0) + v
+            else:
+                interesting[k] = interesting.get(k, 0) + 1
+        stats = {k: v for k, v in stats.items() if not k.startswith("spelling:")}
         if stats:
             distinct.add((cfg, tuple(ops)))
-        if len(samples) < 3 and stats and len(ops) <= 14:
+        if len(samples) < 4 and stats and len(ops) <= 14 and (len(samples) < 3 or any("/td" in o for o in ops)):
             samples.append({"config": cfg, "ops": ops, "impl": [o for _, o in eff]})
         dm, ds = compare(eff, answers)
         if dm is not None or ds is not None:
@@ -160,14 +182,20 @@ def run(chk: Check) -> int:
         "rule": "histories of 1..40 commands over 4 keys generated from VERIF_SEED, round-robin over configurations "
                 + ",".join(CFGS) + "; with the purge task on every other history is phase-locked to the purge ticks (all time "
                 "advances are multiples of the purge interval or idle yields, TTLs at most two intervals), so that commands land at the "
-                "instant of a tick on either side of the purge task's step; a case is non-trivial iff at least one command touched an expired-but-unpurged entry, "
+                "instant of a tick on either side of the purge task's step; through the facade two histories in three spell every TTL as int / float / "
+                "timedelta / duration string (ttl_spellings_commands counts the commands per Python type handed over; timedelta_with_days = `days` field non-zero), "
+                "one in three with TTLs from 90 s to 30 days and half of its time advances aimed at 8 / 1 ticks before, exactly at, 1 / 8 ticks after a pending deadline "
+                "(purge task on: advances of at most ten minutes); a case is non-trivial iff at least one command touched an expired-but-unpurged entry, "
                 "answered exactly at a deadline, or a real purge sweep was spliced in; distinct = distinct (config, op list)",
         "samples": samples,
         "corpus_cases": ncorpus,
         "op_histogram": hist,
         "interesting_states_cases": interesting,
+        "ttl_spellings_commands": spellings,
         "trusted_base": TRUSTED,
-        "partial": "non-dyadic TTLs, more than 4 keys / 40 commands and the float formula of get_expire beyond eighths are not sampled",
+        "partial": "non-dyadic TTLs, more than 4 keys / 40 commands and the float formula of get_expire beyond eighths are not sampled; "
+                   "TTL spellings not sampled here: callables (the commands do not accept them), strings with trailing digits after a unit or with "
+                   "characters the parser refuses (C02), negative durations; deadlines of hours and days are crossed with the purge task off only",
     })
     chk.assumptions.extend(TRUSTED)
     return chk.finish(proof)
@@ -177,6 +205,9 @@ def replay(chk: Check, path: str) -> int:
     c = json.loads(Path(path).read_text())
     eff, answers, _ = run_case(c["config"], c["ops"])
     dm, ds = compare(eff, answers)
+    for op in c["ops"]:
+        if memhist.describe(op):
+            print(f"# `{op}`: {memhist.describe(op)} handed to the facade; the model gets the ticks")
     for (l, o), a in zip(eff, answers[1:]):
         print(f"{l:40s} impl={o:20s} {a}")
     if dm is None and ds is None:
